@@ -1,9 +1,10 @@
 import Capnp.Props.C06
+import Capnp.Lemmas.RpcIds
 /-!
 # C07 — RPC capability references are counted exactly (export side)
 -/
 namespace Capnp.Props.C07
-open Capnp.Model.Rpc Capnp.Lemmas.Rpc Capnp.Props.C06
+open Capnp.Model.Rpc Capnp.Lemmas.Rpc Capnp.Lemmas.RpcIds Capnp.Props.C06
 
 theorem run_EInv (s : RS) (es : List Ev) (h : EInv s) : EInv (run s es) := by
   induction es generalizing s with
@@ -29,6 +30,17 @@ theorem export_drop (s : RS) (id n : Nat) (e : Exp) (he : s.exports id = some e)
     (n = e.wireRefs → ∃ r, releaseExport s id n = some r ∧ r.1.exports id = none) ∧
     (n < e.wireRefs → ∃ r, releaseExport s id n = some r ∧ r.1.exports id = some { e with wireRefs := e.wireRefs - n }) :=
   releaseExport_spec s id n e he
+
+theorem run_XInv (s : RS) (es : List Ev) (h : XInv s) : XInv (run s es) := by
+  induction es generalizing s with
+  | nil => exact h
+  | cons e es ih => exact ih _ (stepTop_XInv s e h)
+
+/-- **a new export never takes the id of a live one**: after any history, the id the generator would hand out next
+    has no entry in the export table (ids come back to the generator only when their entry is dropped, and are not
+    handed out twice in between) -/
+theorem export_id_fresh (es : List Ev) : (run {} es).exports ((run {} es).exportID.next).1 = none :=
+  next_fresh _ (run_XInv {} es init_XInv)
 
 /-- a Release naming an id that is not in the table, or more references than the peer holds, ends the connection -/
 theorem bad_release_aborts (s : RS) (id n : Nat) (hopen : s.closed = false) (h : releaseExport s id n = none) :
